@@ -1,20 +1,173 @@
 /-
 C13 — Keys, pastes and mouse events forwarded into the embedded terminal arrive intact.
-Property theorems only.
+Property theorems only.  Byte strings are related to parsed sequences through `renderSeq` /
+`renderCSI` (Spec/TermInput.lean); that the real ansi parser inverts them is checked on every
+generated case by the correspondence harness (and is property C02).
 -/
 import VaxisModel.Model.TermKey
 import VaxisModel.Model.TermMouse
 import VaxisModel.Spec.TermInput
+import VaxisModel.Lemmas.TermInput
 
 namespace VaxisModel.Props.C13
 open VaxisModel.Model.Key VaxisModel.Model.Mouse VaxisModel.Model.TermKey VaxisModel.Model.TermMouse
 open VaxisModel.Spec.KeyEnc VaxisModel.Spec.TermInput VaxisModel.Gen.Keys
+open VaxisModel.Lemmas.TermInput
+
+/-! ## Keys -/
+
+/-- Keys with a dedicated xterm report, plus Tab / Enter / Escape / BackSpace. -/
+def specialKeysD : List Int :=
+  xtermLetterKeys.map (·.1) ++ xtermTildeKeys.map (·.1) ++ [KeyTab, KeyEnter, KeyEsc, KeyBackspace]
+
+/-- The shapes an event for key `kc` with xterm modifiers `m` takes: bare, with the shifted code, with
+    the produced character as text, with both, and with kitty-only modifiers / base layout / repeat. -/
+def variants (kc : Int) (m : Nat) : List Key :=
+  let S := asciiUni.toUpper kc
+  let ch := if m &&& 1 ≠ 0 then S else kc
+  [ { keycode := kc, mods := m }, { keycode := kc, mods := m, shifted := S },
+    { keycode := kc, mods := m, text := [ch] }, { keycode := kc, mods := m, shifted := S, text := [ch] },
+    { keycode := kc, mods := m + 72, base := 97, event := 1 } ]
+
+/-- Every special key and every printable ASCII key × every combination of Shift/Alt/Ctrl × shapes. -/
+def domainKeys : List Key :=
+  (specialKeysD ++ (List.range 95).map (fun (i : Nat) => (32 : Int) + Int.ofNat i)).flatMap fun kc =>
+    (List.range 8).flatMap fun m => variants kc m
+
+def allModes : List (Bool × Bool) := [(false, false), (false, true), (true, false), (true, true)]
+
+/-- **key_roundtrip.** For every event of `domainKeys` that lies in `XtermDomain` (the chord has a
+    single unambiguous xterm legacy report) and all four (deckpam, decckm) combinations, the encoder
+    writes exactly that report, and the report decoded by `decodeKey` matches the original key code
+    and Shift/Alt/Ctrl modifiers (`roundtripOK`). Kernel-evaluated over the tables regenerated from
+    widgets/term/key.go and key.go. -/
+theorem key_roundtrip :
+    (domainKeys.all fun k => allModes.all fun md => roundtripOK asciiUni k md.1 md.2) = true := by
+  decide +kernel
+
+/-- Non-vacuity: 2125 of the 4840 events are in `XtermDomain`. -/
+theorem key_roundtrip_domain_size :
+    (domainKeys.filter fun k => XtermDomain asciiUni k).length = 2125 ∧ domainKeys.length = 4840 := by
+  decide +kernel
+
+/-- Table part of `cursor_mode_selects`, over the regenerated tables: for every cursor key, both
+    keypad modes and both cursor-key modes. -/
+theorem cursor_tables :
+    ∀ e ∈ cursorKeys, ∀ md ∈ allModes, encodeTables e.1 0 md.1 md.2 = some (renderSeq (cursorSeq e.2 md.2)) := by
+  decide
+
+/-- **cursor_mode_selects.** An unmodified cursor key (Up/Down/Right/Left/End/Home) is sent in SS3
+    form when the child set DECCKM and in CSI form otherwise — whatever the other fields of the
+    event, the keypad mode and the `unicode` tables. -/
+theorem cursor_mode_selects (u : Uni) (k : Key) (deckpam decckm : Bool) (fin : Int)
+    (hk : (k.keycode, fin) ∈ cursorKeys)
+    (hm : k.mods &&& ModShift = 0 ∧ k.mods &&& ModAlt = 0 ∧ k.mods &&& ModCtrl = 0) :
+    encodeXterm u k deckpam decckm = renderSeq (cursorSeq fin decckm) := by
+  obtain ⟨h1, h2, h3⟩ := hm
+  have hmode : (deckpam, decckm) ∈ allModes := by cases deckpam <;> cases decckm <;> decide
+  have := cursor_tables _ hk _ hmode
+  simp only [encodeXterm, h1, h2, h3, Nat.or_self]
+  simp only [] at this
+  rw [this]
+
+/-- **special_keys_exact** (general form of the table part of `key_roundtrip`). For every key with
+    a dedicated xterm report (and Tab/Enter/Escape/BackSpace without Alt), every Shift/Alt/Ctrl set
+    the legacy protocol expresses and all four key modes, the table-driven part of the encoder
+    yields exactly the xterm legacy report — independently of `unicode` and of the other fields. -/
+theorem special_keys_exact :
+    (specialKeysD.all fun kc => (List.range 8).all fun m => allModes.all fun md =>
+      match xtermLegacy kc m 0 md.2 with
+      | some s => kc == KeyBackspace || encodeTables kc m md.1 md.2 == some (renderSeq s)
+      | none => true) = true := by
+  decide +kernel
+
+/-! ## Mouse -/
+
+/-- `%d` rendering used by the encoders, pinned on examples. -/
+theorem decimal_examples :
+    decimal 0 = [48] ∧ decimal 7 = [55] ∧ decimal 1001 = [49, 48, 48, 49] ∧ decimal (-12) = [45, 49, 50] := by decide
+
+/-- **mouse_gated.** For a press, release or motion event the child has not enabled (xterm: 1000
+    presses/releases, 1002 adds drags, 1003 adds all motion; 1006 enables nothing) and to which
+    alternate scroll does not apply, nothing at all is written towards the child — for every button,
+    position, modifier set and mode combination. -/
+theorem mouse_gated (u : Uni) (md : Modes) (m : Mouse)
+    (hev : m.event = EventPress ∨ m.event = EventRelease ∨ m.event = EventMotion)
+    (hen : enabledFor md m = false) (halt : altScrollApplies md m = false) :
+    update u md (.mouse m) = [] := by
+  obtain ⟨pam, ckm, paste, b, d, mo, sgr, alt, smcup⟩ := md
+  rcases hev with h | h | h <;>
+  simp [enabledFor, altScrollApplies, isWheel, h, EventPress, EventRelease, EventMotion] at hen halt <;>
+  simp [update, handleMouse, h, EventPress, EventRelease, EventMotion, VaxisModel.Gen.Mouse.MouseWheelUp, VaxisModel.Gen.Mouse.MouseWheelDown, VaxisModel.Gen.Mouse.MouseNoButton] <;>
+  (try (cases b <;> cases d <;> cases mo <;> cases sgr <;> cases alt <;> cases smcup <;> simp_all))
+
+
+example : enabledFor { mouseSGR := true } { button := 0, event := EventPress } = false ∧
+    altScrollApplies { mouseSGR := true } { button := 0, event := EventPress } = false := by decide
+
+/-- **mouse_roundtrip.** Under SGR mode, an enabled event with any button of the API and any position
+    is written as exactly `CSI < b ; col+1 ; row+1 M|m`, and `parseMouseEvent` maps that report back to
+    the same button, column, row and press/release/motion type. -/
+theorem mouse_roundtrip (u : Uni) (md : Modes) (m : Mouse)
+    (hsgr : md.mouseSGR = true) (hen : enabledFor md m = true) (hb : m.button ∈ buttonConsts) :
+    ∃ inter params fin, sgrReport m = some (inter, params, fin) ∧
+      update u md (.mouse m) = renderCSI inter params fin ∧
+      ∃ m', parseMouseEvent inter params fin = some m' ∧ sameMouse m' m = true := by
+  obtain ⟨pam, ckm, paste, b, d, mo, sgr, alt, smcup⟩ := md
+  simp only at hsgr
+  subst hsgr
+  have hp := parse_back _ hb
+  have hev : m.event = EventPress ∨ m.event = EventRelease ∨ m.event = EventMotion := by
+    unfold enabledFor at hen
+    by_cases h1 : m.event = EventPress ∨ m.event = EventRelease
+    · rcases h1 with h | h
+      · exact Or.inl h
+      · exact Or.inr (Or.inl h)
+    · by_cases h2 : m.event = EventMotion
+      · exact Or.inr (Or.inr h2)
+      · simp [h1, h2] at hen
+  rcases hev with h | h | h
+  · refine ⟨[60], [[m.button], [m.col + 1], [m.row + 1]], 77, by simp [sgrReport, h], ?_, ?_⟩
+    · simp [enabledFor, h, EventPress, EventRelease, EventMotion] at hen
+      simp [update, handleMouse, h, EventPress, EventRelease, EventMotion, renderCSI, renderParams]
+      cases b <;> cases d <;> cases mo <;> simp_all
+    · rw [parse_pos, hp.1]; simp [sameMouse, h]
+  · refine ⟨[60], [[m.button], [m.col + 1], [m.row + 1]], 109, by simp [sgrReport, h, EventPress, EventRelease], ?_, ?_⟩
+    · simp [enabledFor, h, EventPress, EventRelease, EventMotion] at hen
+      simp [update, handleMouse, h, EventPress, EventRelease, EventMotion, renderCSI, renderParams]
+      cases b <;> cases d <;> cases mo <;> simp_all
+    · rw [parse_pos, hp.2.1]; simp [sameMouse, h]
+  · refine ⟨[60], [[m.button + 32], [m.col + 1], [m.row + 1]], 77, by simp [sgrReport, h, EventPress, EventRelease, EventMotion], ?_, ?_⟩
+    · simp [enabledFor, h, EventPress, EventRelease, EventMotion] at hen
+      simp [update, handleMouse, h, EventPress, EventRelease, EventMotion, renderCSI, renderParams, VaxisModel.Gen.Mouse.MouseNoButton]
+      by_cases h3 : m.button = 3 <;> simp [h3] at hen ⊢ <;> cases b <;> cases d <;> cases mo <;> simp_all
+    · rw [parse_pos, hp.2.2]; simp [sameMouse, h]
+
+example : enabledFor { mouseSGR := true, mouseMotion := true } { button := 3, col := 222, row := 1000, event := EventMotion } = true := by decide
+
+/-- **altscroll_cursor_mode.** Alternate scroll (1007 on the alternate screen, no mouse reporting
+    enabled): a wheel event becomes three cursor-up / cursor-down keys in the form the child's cursor
+    key mode selects. -/
+theorem altscroll_cursor_mode (u : Uni) (md : Modes) (m : Mouse) (h : altScrollApplies md m = true) :
+    update u md (.mouse m) =
+      let k := renderSeq (cursorSeq (if m.button = 64 then 65 else 66) md.decckm)
+      k ++ k ++ k := by
+  obtain ⟨pam, ckm, paste, b, d, mo, sgr, alt, smcup⟩ := md
+  simp [altScrollApplies, isWheel] at h
+  obtain ⟨⟨⟨ha, hs⟩, hb, hmo⟩, hw⟩ := h
+  obtain ⟨hb, hd⟩ := hb
+  subst ha hs hb hd hmo
+  rcases hw with hw | hw <;> cases ckm <;>
+    simp [update, handleMouse, hw, cursorSeq, renderSeq, renderCSI, renderParams,
+      VaxisModel.Gen.Mouse.MouseWheelUp, VaxisModel.Gen.Mouse.MouseWheelDown]
+
+/-! ## Paste -/
 
 /-- **paste_gated.** Nothing is written for a paste boundary unless the child enabled bracketed
-    paste (mode 2004); if it did, exactly the marker is written. -/
+    paste (mode 2004); if it did, exactly the marker `CSI 200 ~` / `CSI 201 ~` is written. -/
 theorem paste_gated (u : Uni) (md : Modes) :
     (md.paste = false → update u md .pasteStart = [] ∧ update u md .pasteEnd = []) ∧
-    (md.paste = true → update u md .pasteStart = [27, 91, 50, 48, 48, 126] ∧ update u md .pasteEnd = [27, 91, 50, 48, 49, 126]) := by
-  constructor <;> intro h <;> simp [update, h]
+    (md.paste = true → update u md .pasteStart = renderSeq pasteStartSeq ∧ update u md .pasteEnd = renderSeq pasteEndSeq) := by
+  constructor <;> intro h <;> simp [update, h] <;> decide
 
 end VaxisModel.Props.C13
